@@ -10,6 +10,7 @@ import (
 	"strings"
 	"sync"
 	"sync/atomic"
+	"time"
 
 	"github.com/tidwall/tile38/verifharness/fence"
 )
@@ -56,6 +57,7 @@ func fenceReplay(args []string) int {
 	spin := fs.Bool("spinlock", false, "use the spinlock implementation")
 	others := fs.Int("others", 0, "population of other hooks per server")
 	rereg := fs.Int("rereg", 0, "re-register the fences under test every N behaviours")
+	only := fs.Int("only", 0, "register and compare only this fence of the scene (1-based)")
 	keep := fs.Int("examples", 3, "mismatch examples kept per class and transport")
 	fs.Parse(args)
 	fail := func(err error) int {
@@ -88,9 +90,27 @@ func fenceReplay(args []string) int {
 		return fail(err)
 	}
 	defer sink.Close()
+	// scheduling watchdog: tile38 gives a webhook request 5 s and re-sends the notification after a failure; if this
+	// process is ever starved that long a duplicate notification is the machine's doing, not the server's
+	var maxLag int64
+	stopWatch := make(chan bool)
+	go func() {
+		for {
+			t0 := time.Now()
+			select {
+			case <-stopWatch:
+				return
+			case <-time.After(100 * time.Millisecond):
+			}
+			if lag := int64(time.Since(t0)/time.Millisecond) - 100; lag > atomic.LoadInt64(&maxLag) {
+				atomic.StoreInt64(&maxLag, lag)
+			}
+		}
+	}()
+	defer close(stopWatch)
 	seed, _ := strconv.ParseInt(os.Getenv("VERIF_SEED"), 10, 64)
 	opt := fence.Options{Table: &table, Transports: strings.Split(*transports, ","), Dir: *dir, Spinlock: *spin,
-		Others: *others, Rereg: *rereg, Seed: seed}
+		Others: *others, Rereg: *rereg, Seed: seed, Only: *only}
 
 	type job struct {
 		i    int
@@ -182,7 +202,8 @@ func fenceReplay(args []string) int {
 	if s := atomic.LoadInt64(&sink.Stray); s > 0 {
 		return fail(fmt.Errorf("%d webhook messages for unknown hooks", s))
 	}
-	emit(map[string]interface{}{"stats": total, "read": n, "mismatch_count": nmism, "mismatches": examples, "samples": samples})
+	emit(map[string]interface{}{"stats": total, "read": n, "mismatch_count": nmism, "mismatches": examples, "samples": samples,
+		"max_scheduling_lag_ms": atomic.LoadInt64(&maxLag), "slowest_webhook_ms": atomic.LoadInt64(&sink.SlowestMs)})
 	if nmism > 0 {
 		return 1
 	}
